@@ -83,7 +83,7 @@ def load(ctx, need=("ec", "sigs", "rsa")):
 # the acceptance oracle
 # ---------------------------------------------------------------------------
 
-def judge(ctx, scheme, kind, res, valid, wit, optional=False, produced=False, desc=()):
+def judge(ctx, scheme, kind, res, valid, wit, optional=False, produced=False, desc=(), keyscheme=None):
     """One candidate (message, signature, key) was shown to the library's verify().
 
     res      ("ok", _) = verify returned = ACCEPTED | ("exc", e)
@@ -92,12 +92,15 @@ def judge(ctx, scheme, kind, res, valid, wit, optional=False, produced=False, de
              None  : the standard leaves it to the implementation (EdDSA cofactored / cofactorless disagree)
     optional valid, but a verifier may refuse it ((r, q-s) policies, DigestInfo without NULL) -> no completeness demand
     produced the candidate is a signature the library's own sign() returned
+    keyscheme scheme name used in the mechanism key (EdDSA: per curve, because the five variants share two verify
+             functions); counters stay per `scheme`
     """
+    ks = keyscheme or scheme
     ctx.case((scheme, kind) + tuple(desc))
     ctx.count("cand:%s:%s" % (scheme, kind))
     if res[0] == "exc" and not isinstance(res[1], ValueError):
         ctx.count("lib_raised_other:" + scheme)
-        ctx.check(False, "exc:%s:verify-raised-%s" % (scheme, type(res[1]).__name__),
+        ctx.check(False, "exc:%s:verify-raised-%s" % (ks, type(res[1]).__name__),
                   "verify() raised something other than ValueError on a candidate signature",
                   lambda: dict(_w(wit), candidate=kind, got=repr(res[1])[:200], model_valid=valid))
         return False
@@ -105,7 +108,7 @@ def judge(ctx, scheme, kind, res, valid, wit, optional=False, produced=False, de
     ctx.count(("lib_accepted:" if accepted else "lib_rejected:") + scheme)
     if valid is False:
         ctx.count("model_invalid:" + scheme)
-        return ctx.check(not accepted, "sound:%s:invalid-accepted:%s" % (scheme, kind),
+        return ctx.check(not accepted, "sound:%s:invalid-accepted:%s" % (ks, kind),
                          "verify() accepted a (message, signature, key) triple that the standard does not define as valid",
                          lambda: dict(_w(wit), candidate=kind, expected="ValueError", got="accepted"))
     if valid is True:
@@ -116,7 +119,7 @@ def judge(ctx, scheme, kind, res, valid, wit, optional=False, produced=False, de
             ctx.count("model_valid_optional:%s:%s" % (scheme, "accepted" if accepted else "rejected"))
             ctx.ev()
             return True
-        return ctx.check(accepted, "complete:%s:valid-rejected:%s" % (scheme, kind),
+        return ctx.check(accepted, "complete:%s:valid-rejected:%s" % (ks, kind),
                          "verify() rejected a triple that the standard defines as valid" +
                          (" (the signature came from the library's own sign())" if produced else ""),
                          lambda: dict(_w(wit), candidate=kind, expected="accepted", got=repr(res[1])[:200]))
